@@ -204,7 +204,68 @@ theorem c03_entry_builder (H : Bytes → Bytes) (kind : Int) (bits : Bits) (refs
   · simp [builderOne, h3 form hf, toBuilder, hk, c03_store_cell bits refs l1 l2]
   · simp [builderOne, h3 form hf, toBuilder, hk]
 
-/-! Non-vacuity. -/
+/-! ## Non-vacuity
+
+A DAG WITH SHARING meets all hypotheses of `c03_roundtrip` at once (toy hash `H = id`, injective, as in C04's example): the
+one-bit leaf is referenced by both inner cells and by the root — 6 tree nodes, 4 distinct cells. -/
+
+def dagTree : Cell :=
+  .mk (-1) [true, false, true]
+    [.mk (-1) [false] [.mk (-1) [true] []], .mk (-1) [true, true] [.mk (-1) [true] []], .mk (-1) [true] []]
+
+/-- evaluated once by the kernel: the built objects are collision-free, `Cell.order` needs fewer than 50 loop iterations and
+lists 4 distinct cells, the payload is within the format's limit -/
+theorem dagTree_checks :
+    (match Cell.build id dagTree with
+     | some p => noCollisionB p && decide (cost p ([], []) + 1 ≤ 50) && decide ((dfs p ([], [])).2.length = 4) &&
+         decide ((payloadOf (sizeW (orderRecs (dfs p ([], [])).2)) (orderRecs (dfs p ([], [])).2)).length * 2 < 2 ^ 64)
+     | none => false) = true := by decide +kernel
+
+theorem dagTree_ok : TreeWF id dagTree ∧ Typed dagTree := by
+  have h := ord_treeWF id dagTree (by simp [dagTree, Proofs.OrdCell.OrdWF, Proofs.OrdCell.OrdWFs])
+    (by simp [dagTree, Proofs.OrdCell.ordDepth, Proofs.OrdCell.ordDepthMax])
+  exact ⟨h.1, h.2.1⟩
+
+/-- all hypotheses of `c03_roundtrip` hold for the DAG with sharing -/
+theorem dagTree_hyps : ∃ p ord, Cell.build id dagTree = some p ∧ NoCollision p ∧ p.order 50 = some ord ∧ ord.length = 4 ∧
+    (payloadOf (sizeW (orderRecs ord)) (orderRecs ord)).length * 2 < 2 ^ 64 := by
+  obtain ⟨p, hp⟩ := tree_builds id dagTree dagTree_ok.1
+  have hc := dagTree_checks
+  rw [hp] at hc
+  simp only [Bool.and_eq_true, decide_eq_true_eq] at hc
+  obtain ⟨⟨⟨c1, c2⟩, c3⟩, c4⟩ := hc
+  have nc := noCollision_of_B p c1
+  exact ⟨p, _, hp, nc, order_eq_dfs p nc 50 c2, c3, c4⟩
+
+example : TreeWF id dagTree ∧ Typed dagTree ∧ ∃ p ord, Cell.build id dagTree = some p ∧ NoCollision p ∧
+    p.order 50 = some ord ∧ ord.length < 2 ^ 32 ∧
+    (payloadOf (sizeW (orderRecs ord)) (orderRecs ord)).length * 2 < 2 ^ 64 := by
+  obtain ⟨p, ord, h1, h2, h3, h4, h5⟩ := dagTree_hyps
+  exact ⟨dagTree_ok.1, dagTree_ok.2, p, ord, h1, h2, h3, by omega, h5⟩
+
+/-- … and therefore the conclusion: with index + CRC + cache bits, `to_boc` of the shared DAG parses back — from the bytes, the
+hex text and the base64 text — to the same tree with the identical cached info; the Slice and Builder entry points return
+the root's bits and its three child trees. -/
+example : ∃ p bs, Cell.build id dagTree = some p ∧ p.toBoc 50 ⟨true, true, true, 0⟩ = some bs ∧
+    (∀ form ∈ [Sum.inl bs, Sum.inr (hexEnc bs), Sum.inr (b64Enc bs)],
+      fromBocAny id form = some [(dagTree, p.info)] ∧
+      sliceOne id form = some ⟨[true, false, true],
+        [.mk (-1) [false] [.mk (-1) [true] []], .mk (-1) [true, true] [.mk (-1) [true] []], .mk (-1) [true] []]⟩ ∧
+      builderOne id form = some ⟨[true, false, true],
+        [.mk (-1) [false] [.mk (-1) [true] []], .mk (-1) [true, true] [.mk (-1) [true] []], .mk (-1) [true] []]⟩) := by
+  obtain ⟨p, ord, h1, h2, h3, h4, h5⟩ := dagTree_hyps
+  obtain ⟨wf, ty⟩ := dagTree_ok
+  have hv : (⟨true, true, true, 0⟩ : Opts).valid = true := by decide
+  obtain ⟨bs, r1, _, r3, _⟩ := c03_roundtrip id dagTree wf ty p h1 h2 50 ord h3 _ hv (by omega) h5
+  obtain ⟨bs', s1, s2⟩ := c03_entry_slice id _ _ _ wf ty p h1 h2 50 ord h3 _ hv (by omega) h5
+  obtain ⟨bs'', b1, b2⟩ := c03_entry_builder id _ _ _ wf ty p h1 h2 50 ord h3 _ hv (by omega) h5
+  have e1 : bs' = bs := Option.some.inj (s1.symm.trans r1)
+  have e2 : bs'' = bs := Option.some.inj (b1.symm.trans r1)
+  rw [e1] at s2; rw [e2] at b2
+  refine ⟨p, bs, h1, r1, fun form hf => ⟨r3 form hf, s2 form hf, ?_⟩⟩
+  have := b2 form hf
+  simpa [kOrdinary] using this
+
 example : Bytes.WF [0xb5, 0xee, 0x9c, 0x72, 0x01, 0x02] := by decide
 
 end TonVerif.Properties.C03
